@@ -30,7 +30,7 @@ LEVEL_NOTE = ('trusted: CPython ast (structure modulo ctx and documented docstri
 RULE = ('enum: case = (program, node/slice, form, repetitions) or (context, text, accessor); non-trivial = distinct cases where the '
         'round trip was accepted; states = distinct sources seen; traces = round trips compared')
 ASSUMPTIONS = ['cut and put back run with norm=False (the container may pass through a length Python does not allow), self-replacement with norm=True', 'texts containing a line break are not valid line comments']
-BOUNDS = {'quick': '56 programs, all nodes and slices (<= 4 elements), 6 forms (cut/self x fst/ast/src), repetitions 1-3; docstring texts of length <= 3 (+48 crafted) x 6 contexts; comment texts <= 2 x 6 contexts',
+BOUNDS = {'quick': '57 programs, all nodes and slices (<= 4 elements), 6 forms (cut/self x fst/ast/src), repetitions 1-3; docstring texts of length <= 3 (+48 crafted) x 6 contexts; comment texts <= 2 x 6 contexts',
           'thorough': 'comment texts of length <= 3'}
 
 ALPH = ['a', ' ', '"', "'", '\\', '\n', '\t', '{', '#', 'é', '\x00', '\r']
@@ -374,6 +374,8 @@ EXTRA = [  # positions whose content needs its parentheses; nested multi-line do
     # whitespace-only lines that carry indentation: inside docstrings / strings and between statements
     "class C:\n    def f(self):\n        \"\"\"Summary.\n        \n        Details.\n    \n            deep\n        \"\"\"\n        return 1\n    \n    def g(self):\n        s = '''a\n        \n  b'''\n        \n        return s\n",
     "if a:\n    '''d\n    \n    e'''\n    \n    x = 1\n  \n    y = 2\n\t\nz = 3",
+    # flags that are recomputed from the layout: AnnAssign.simple depends on the target's parentheses
+    "(x): int = 1\n(y): str\nz: int = 2\na.b: int\n(c[0]): int = 3\n((d)): e",
 ]
 PROGS8 = list(PROGRAMS) + EXTRA
 for _p in EXTRA:
